@@ -265,6 +265,20 @@ func kindsSig(ts []lexer.Token) string {
 	return b.String()
 }
 
+// sameKindsAndTexts: the two streams agree in what the property speaks of (an ERROR token's message may name an
+// offset, which moves with the whitespace).
+func sameKindsAndTexts(a, b []lexer.Token) bool {
+	if len(a) != len(b) {
+		return false
+	}
+	for i := range a {
+		if a[i].Type != b[i].Type || strings.TrimSpace(a[i].Text) != strings.TrimSpace(b[i].Text) {
+			return false
+		}
+	}
+	return true
+}
+
 func sameToks(a, b []lexer.Token) bool {
 	if len(a) != len(b) {
 		return false
@@ -752,6 +766,17 @@ func main() {
 		}
 		return true, fmt.Sprintf("%q and %q lex alike", c.Input, variant)
 	})
+	r.Replayer("adjacent", func(raw json.RawMessage) (bool, string) {
+		var c struct {
+			Keyword string `json:"keyword"`
+			Next    string `json:"next_token_text"`
+		}
+		if err := json.Unmarshal(raw, &c); err != nil {
+			return false, err.Error()
+		}
+		a, b := lexOnce(c.Keyword+" "+c.Next, 0), lexOnce(c.Keyword+c.Next, 0)
+		return sameKindsAndTexts(a.Toks, b.Toks), fmt.Sprintf("%q lexes to %s; %q lexes to %s", c.Keyword+" "+c.Next, showToks(a.Toks), c.Keyword+c.Next, showToks(b.Toks))
+	})
 	r.Replayer("case", func(raw json.RawMessage) (bool, string) {
 		var c caseCase
 		json.Unmarshal(raw, &c)
@@ -900,6 +925,31 @@ func main() {
 	caseEvals = len(jobs)
 	atomic.AddInt64(&lexes, int64(2*len(jobs)))
 	r.Set("case_variants", caseEvals)
+
+	// 3b: a keyword needs no whitespace before a token that does not start with a letter (a keyword is a run of
+	// letters): with and without the blank, the two tokens are the same.
+	type adjCase struct {
+		Keyword string `json:"keyword"`
+		Next    string `json:"next_token_text"`
+	}
+	nexts := []string{timestamp, "?x", "/u<a>", `"p"@[]`, `"1"^^type:int64`, "_:v", "(", ")", "{", "}", ";", ",", ".", "=", "<", ">", "1", "_"}
+	var adjEvals int64
+	for ki, kw := range keywords {
+		for _, word := range []string{kw, strings.ToUpper(kw), strings.ToUpper(kw[:1]) + kw[1:]} {
+			for _, nx := range nexts {
+				watch(ki, word+nx)
+				a, b := lexOnce(word+" "+nx, 0), lexOnce(word+nx, 0)
+				adjEvals++
+				if !sameKindsAndTexts(a.Toks, b.Toks) {
+					report(r, []failure{{"adjacent", "keyword-then:" + nx[:1], "tokens-change-when-the-blank-is-removed",
+						fmt.Sprintf("%q lexes to %s\nbut %q lexes to %s", word+" "+nx, showToks(a.Toks), word+nx, showToks(b.Toks)), adjCase{word, nx}}})
+				}
+			}
+		}
+		unwatch(ki)
+	}
+	atomic.AddInt64(&lexes, 2*adjEvals)
+	r.Set("keyword_adjacency_pairs", int(adjEvals))
 
 	// 4: printed forms.
 	idLen := r.Pick(2, 3)
